@@ -74,23 +74,22 @@ econf_getExtValue(econf_file *kf, const char *group,
   char *value_string = NULL;
   getStringValueNum(*kf, num, &value_string);
 
-  char buf[BUFSIZ];
   char *line;
   size_t n_del = 0;
 
   (*result)->values = NULL;
 
   if (value_string!=NULL) {
-    strncpy(buf,value_string,BUFSIZ-1);
-    buf[BUFSIZ-1] = '\0';
-    free(value_string);
-    value_string = trim(buf);
+    /* working on the copy of the value; it can have any length */
+    char *value_copy = value_string;
+    value_string = trim(value_string);
 
     if (value_string[0] == '\"')
     {
       /* one quoted string only */
       (*result)->values = realloc ((*result)->values, sizeof (char*) * ++n_del);
       if ((*result)->values == NULL) {
+        free(value_copy);
         econf_freeExtValue(*result);
         return ECONF_NOMEM; /* memory allocation failed */
       }
@@ -100,12 +99,14 @@ econf_getExtValue(econf_file *kf, const char *group,
       while ((line = strsep(&value_string, "\n")) != NULL) {
         (*result)->values = realloc ((*result)->values, sizeof (char*) * ++n_del);
         if ((*result)->values == NULL) {
+          free(value_copy);
           econf_freeExtValue(*result);
           return ECONF_NOMEM; /* memory allocation failed */
         }
         (*result)->values[n_del-1] = strdup(trim(line));
       }
     }
+    free(value_copy);
   }
 
   /* realloc one extra element for the last 0 */
